@@ -128,7 +128,11 @@ package pubsub
 // backoff it stated (else the configured one) is recorded for each; PX is followed only at or
 // above the accept-PX threshold.
 //@ func (*GossipSubRouter).handlePrune
-//@   property C07 C08 C09
+//@   property C07 C08 C09 C19
+//@   loop 1 step removal-traced: !(forall t string :: has(gs.mesh, t, p) == iter(has(gs.mesh, t, p))) ==>
+//@        calls((*pubsubTracer).Prune) == iter(calls((*pubsubTracer).Prune)) + 1 && lastarg((*pubsubTracer).Prune, 1) == p &&
+//@        (forall t string :: t == lastarg((*pubsubTracer).Prune, 2) ==> iter(has(gs.mesh, t, p)) && !has(gs.mesh, t, p))
+//@   loop 1 step at-most-one-event: calls((*pubsubTracer).Prune) - iter(calls((*pubsubTracer).Prune)) <= 1
 //@   requires sep: sepMesh(gs) && sepBackoff(gs) && validBackoffParams(gs)
 //@   requires ctl: forall i int :: 0 <= i && i < len(ctl.Prune) ==> ctl.Prune[i] != nil
 //@   noframe
@@ -164,7 +168,7 @@ package pubsub
 //@      old(t in gs.mesh) && !old(p in gs.direct) && !(old(has(gs.backoff, t, p)) && at < old(gs.backoff[t][p])) && sc >= 0.0 &&
 //@      (old(len(gs.mesh[t])) < old(gs.params.Dhi) || old(gs.outbound[p]))
 //@ func (*GossipSubRouter).handleGraft
-//@   property C07 C08 C09
+//@   property C07 C08 C09 C19
 //@   requires sep: sepMesh(gs) && sepBackoff(gs) && validBackoffParams(gs)
 //@   requires ctl: forall i int :: 0 <= i && i < len(ctl.Graft) ==> ctl.Graft[i] != nil
 //@   noframe
@@ -181,6 +185,9 @@ package pubsub
 //@   loop 1 invariant nopx-when-bad: score < 0.0 && len(prune) > 0 ==> !doPX
 //@   loop 1 invariant nopx-when-penalised: calls((*peerScore).AddPenalty) > old(calls((*peerScore).AddPenalty)) ==> !doPX && len(prune) > 0
 //@   loop 2 invariant pruning: calls((*GossipSubRouter).makePrune) - old(calls((*GossipSubRouter).makePrune)) == rangeindex + 1 && rangeindex + 1 <= len(prune) && len(cprune) == rangeindex + 1
+//@   loop 1 step graft-traced-iff-admitted: calls((*pubsubTracer).Graft) - iter(calls((*pubsubTracer).Graft)) ==
+//@        ite((forall t string :: has(gs.mesh, t, p) == iter(has(gs.mesh, t, p))), 0, 1)
+//@   loop 1 step one-admission-per-entry: forall t1 string, t2 string :: has(gs.mesh, t1, p) && !iter(has(gs.mesh, t1, p)) && has(gs.mesh, t2, p) && !iter(has(gs.mesh, t2, p)) ==> t1 == t2
 //@   at call AddPenalty#1 assert backoff-active: $arg1 == p && $arg2 == 1 && has(gs.backoff, topic, p) && now < gs.backoff[topic][p]
 //@   at call AddPenalty#2 assert flood-window: $arg1 == p && $arg2 == 1 && now < gs.backoff[topic][p] + gs.params.GraftFloodThreshold - gs.params.PruneBackoff
 //@   at call addBackoff assert refused: $arg1 == p && $arg2 == topic && !$arg3
@@ -493,7 +500,8 @@ package pubsub
 // prunePeer: exactly p leaves this topic's mesh, is backed off for at least the prune backoff and
 // is queued for a PRUNE; no other mesh, backoff entry or peer set changes.
 //@ func (*GossipSubRouter).heartbeat$3
-//@   property C07 C08
+//@   property C07 C08 C19
+//@   ensures prune-traced: calls((*pubsubTracer).Prune) == old(calls((*pubsubTracer).Prune)) + 1 && lastarg((*pubsubTracer).Prune, 1) == p && lastarg((*pubsubTracer).Prune, 2) == topic
 //@   requires state: sepBackoff(gs) && validBackoffParams(gs) && peers != nil && toprune != nil && peers != gs.direct
 //@   noframe
 //@   ensures removed: !(p in peers) && (forall q string :: q != p ==> (q in peers) == old(q in peers))
@@ -507,7 +515,8 @@ package pubsub
 // is not yet a member, not a direct peer, has no backoff entry for the topic NOW, and its score
 // as read in this heartbeat is non-negative. Every call site in heartbeat must establish it.
 //@ func (*GossipSubRouter).heartbeat$4
-//@   property C07 C08 C09
+//@   property C07 C08 C09 C19
+//@   ensures graft-traced: calls((*pubsubTracer).Graft) == old(calls((*pubsubTracer).Graft)) + 1 && lastarg((*pubsubTracer).Graft, 1) == p && lastarg((*pubsubTracer).Graft, 2) == topic
 //@   requires eligible: !(p in gs.direct) && !has(gs.backoff, topic, p)
 //@   requires state: peers != nil && tograft != nil && peers != gs.direct
 //@   noframe
@@ -599,3 +608,54 @@ package pubsub
 //@   at call sort.Slice#1 forget
 //@   at call peerMapToList forget all
 //@   at call heartbeat$4 assert score-ok: $arg0 in scores && scores[$arg0] >= 0.0
+
+// ---- C06: recipients of a published / forwarded message (gossipsub) ----
+//
+// rpcs$1 is the iterator body: it computes the recipient set `tosend` and yields one (peer, RPC)
+// pair per recipient. Exclusions: never the forwarder, never the author, never a peer that is
+// not in the topic's peer map (for the direct/floodsub/flood-publish classes; for mesh and fanout
+// members see the finding below), never a mesh/fanout member that announced IDONTWANT for the
+// message; every copy is the RPC built around the accepted protobuf itself. Inclusions: every
+// direct peer in the topic, every floodsub-only topic peer at or above the publish threshold,
+// every mesh member (or fanout member when the topic is not joined) that has not sent
+// IDONTWANT; with flood publishing of own messages every topic peer that is direct or at or
+// above the publish threshold.
+//@ spec fn inTopic(gs *GossipSubRouter, t string, q string) bool = has(gs.p.topics, t, q)
+//@ func (*GossipSubRouter).rpcs$1
+//@   property C06
+//@   requires msg: msg != nil && msg.Message != nil && gs.mcache != nil && mcRep(gs.mcache) && gs.p != nil && gs.direct != nil
+//@   requires sep: sepMesh(gs) && sepFanout(gs)
+//@   noframe
+//@   loop 1 invariant flood: tosend != nil && (forall q string :: q in tosend ==> q in tmap && (q in gs.direct || (q in $visited && true))) &&
+//@        (forall q string :: $visited[q] && q in gs.direct ==> q in tosend)
+//@   loop 2 invariant direct: tosend != nil && tosend != gs.direct && (forall q string :: $start[q] == (q in gs.direct)) && (forall q string :: q in tosend ==> q in tmap && q in gs.direct) &&
+//@        (forall q string :: $visited[q] && q in tmap ==> q in tosend)
+//@   loop 3 invariant floodsub: tosend != nil && (forall q string :: q in tosend ==> q in tmap) && (forall q string :: q in gs.direct && q in tmap ==> q in tosend)
+//@   loop 4 invariant gossip: tosend != nil && (forall q string :: q in tosend ==> q in tmap || q in gmap) && (forall q string :: q in gs.direct && q in tmap ==> q in tosend) &&
+//@        (forall q string :: $visited[q] && !has(gs.unwanted, q, csum) ==> q in tosend) &&
+//@        (forall q string :: q in tosend && !(q in tmap) ==> !has(gs.unwanted, q, csum))
+//@   loop 5 invariant sending: out == lastret(rpcWithMessages) && out != nil
+//@   loop 5 step each-recipient-once: forall q string :: q == pid && q != from && q != bytestr(msg.Message.From) &&
+//@        !lastret((*GossipSubRouter).iSupportSendingPartial) ==> calls(dyn:yield) == iter(calls(dyn:yield)) + 1 && lastarg(dyn:yield, 0) == q && lastarg(dyn:yield, 1) == out
+//@   at call yield assert recipient-in-topic: $arg0 in tmap
+//@   at call yield assert recipient-allowed: $arg0 in tosend && $arg0 != from && $arg0 != bytestr(msg.Message.From) && $arg1 == out &&
+//@        len(out.RPC.Publish) == 1 && out.RPC.Publish[0] == msg.Message
+
+// getFanoutPeersForPublishing: an existing non-empty fanout set is kept as it is (its members
+// stay for as long as they are eligible - the heartbeat removes the others - and the topic keeps
+// being published to); otherwise a new set of at most D peers is selected, each not a direct
+// peer and at or above the publish threshold when selected; the time of the last publication is
+// recorded in every case.
+//@ func (*GossipSubRouter).getFanoutPeersForPublishing
+//@   property C06 C09
+//@   requires sep: sepFanout(gs) && gs.fanout != nil && gs.lastpub != nil && gs.direct != nil
+//@   noframe
+//@   loop getPeers#1.1 invariant cands: forall i int :: 0 <= i && i < len(peers) ==> !(peers[i] in gs.direct) && score(gs, peers[i]) >= gs.publishThreshold
+//@   loop getPeers#1.1 invariant stable: gs.direct == old(gs.direct) && (forall q string :: (q in gs.direct) == old(q in gs.direct)) && (forall q string :: scoreEpoch[q] == old(scoreEpoch[q])) &&
+//@        gs.score == old(gs.score) && gs.publishThreshold == old(gs.publishThreshold) && gs.fanout == old(gs.fanout) && gs.params == old(gs.params)
+//@   ensures existing-kept: old(topic in gs.fanout && len(gs.fanout[topic]) > 0) ==> result == old(gs.fanout[topic]) && gs.fanout[topic] == old(gs.fanout[topic]) &&
+//@        (forall q string :: (q in result) == old(has(gs.fanout, topic, q)))
+//@   ensures new-members-eligible: !old(topic in gs.fanout && len(gs.fanout[topic]) > 0) ==> (forall q string :: q in result ==> !(q in gs.direct) && score(gs, q) >= gs.publishThreshold)
+//@   ensures registered: len(result) > 0 ==> topic in gs.fanout && gs.fanout[topic] == result
+//@   ensures published-now: topic in gs.lastpub && gs.lastpub[topic] == lastret(time.Now)
+//@   ensures other-topics: forall t string :: t != topic ==> (t in gs.fanout) == old(t in gs.fanout) && gs.fanout[t] == old(gs.fanout[t])
